@@ -23,6 +23,9 @@ fn chk_known<T: PartialEq + std::fmt::Debug>(out: &mut dyn Write, prop: &str, na
             return Ok(());
         }
     }
+    // announce the check first: a call that aborts the process is then identifiable
+    writeln!(out, "BEGIN\tsources:{} {}", name, what)?;
+    out.flush()?;
     let r = catch_unwind(AssertUnwindSafe(got));
     let verdict = match r {
         Ok(g) if g == want => "ok".to_string(),
@@ -32,7 +35,29 @@ fn chk_known<T: PartialEq + std::fmt::Debug>(out: &mut dyn Write, prop: &str, na
             None => "FAIL: panicked".to_string(),
         },
     };
-    writeln!(out, "CHK\t{}\t{} {}\t{}", prop, name, what, verdict)
+    writeln!(out, "CHK\t{}\t{} {}\t{}", prop, name, what, verdict)?;
+    out.flush()
+}
+
+/// like `chk`, but a result equal to `alt` is the symptom of the recorded known finding `key`
+fn chk_alt<T: PartialEq + std::fmt::Debug>(out: &mut dyn Write, prop: &str, name: &str, what: &str, got: impl FnOnce() -> T, want: T, alt: Option<(&str, T)>) -> std::io::Result<()> {
+    {
+        let only = ONLY.lock().unwrap();
+        if !only.is_empty() && *only != prop {
+            return Ok(());
+        }
+    }
+    writeln!(out, "BEGIN\tsources:{} {}", name, what)?;
+    out.flush()?;
+    let r = catch_unwind(AssertUnwindSafe(got));
+    let verdict = match (r, alt) {
+        (Ok(g), _) if g == want => "ok".to_string(),
+        (Ok(g), Some((k, a))) if g == a => format!("KNOWN:{}", k),
+        (Ok(g), _) => format!("FAIL: got {:?} want {:?}", g, want).chars().take(300).collect(),
+        (Err(_), _) => "FAIL: panicked".to_string(),
+    };
+    writeln!(out, "CHK\t{}\t{} {}\t{}", prop, name, what, verdict)?;
+    out.flush()
 }
 
 /// `$mk` must evaluate to a fresh `impl Par<Item = u64>` each time; `$exp` is the std order
@@ -83,6 +108,123 @@ macro_rules! battery {
 
 fn pv_to_vec<V: orx_split_vec::PinnedVec<u64>>(v: V) -> Vec<u64> {
     (0..v.len()).map(|i| *v.get(i).expect("in bounds")).collect()
+}
+
+/// element types other than `u64`: zero-sized, heap-owning, large, boxed
+pub trait Item: Send + Sync + Clone + 'static {
+    /// zero-sized: `SplitVec<()>` of the dependency orx-split-vec is inconsistent on its own (all
+    /// pushes land in the first fragment, whose capacity is usize::MAX, while `get` computes the
+    /// fragment from the growth arithmetic: `get(16)` after 17 plain pushes is out of bounds), so
+    /// results are not read back from a SplitVec for such items
+    const ZST: bool = false;
+    fn mk(x: u64) -> Self;
+    fn val(&self) -> u64;
+}
+impl Item for () {
+    const ZST: bool = true;
+    fn mk(_: u64) -> Self {}
+    fn val(&self) -> u64 {
+        0
+    }
+}
+impl Item for String {
+    fn mk(x: u64) -> Self {
+        format!("item-{}", x)
+    }
+    fn val(&self) -> u64 {
+        self[5..].parse().unwrap_or(u64::MAX)
+    }
+}
+impl Item for [u64; 24] {
+    fn mk(x: u64) -> Self {
+        let mut a = [x; 24];
+        a[23] = !x;
+        a
+    }
+    fn val(&self) -> u64 {
+        if self.iter().take(23).all(|y| *y == self[0]) && self[23] == !self[0] {
+            self[0]
+        } else {
+            u64::MAX
+        }
+    }
+}
+impl Item for Box<u64> {
+    fn mk(x: u64) -> Self {
+        Box::new(x)
+    }
+    fn val(&self) -> u64 {
+        **self
+    }
+}
+impl Item for (u8, Vec<u64>) {
+    fn mk(x: u64) -> Self {
+        ((x % 251) as u8, vec![x; (x % 3) as usize + 1])
+    }
+    fn val(&self) -> u64 {
+        if self.1.iter().all(|y| *y == self.1[0]) && (self.1[0] % 251) as u8 == self.0 && self.1.len() == (self.1[0] % 3) as usize + 1 {
+            self.1[0]
+        } else {
+            u64::MAX
+        }
+    }
+}
+
+fn item_battery<T: Item>(out: &mut dyn Write, tname: &str, v: &[u64]) -> std::io::Result<()> {
+    let items: Vec<T> = v.iter().map(|x| T::mk(*x)).collect();
+    let vals = |w: &[T]| -> Vec<u64> { w.iter().map(|x| x.val()).collect() };
+    let keep = |x: &T| x.val() % 3 != 1;
+    let dup = |x: T| -> Vec<T> { vec![x.clone(); (x.val() % 3) as usize] };
+    for (nt, cs) in [(0usize, 0usize), (1, 0), (2, 1), (3, 2), (4, 5)] {
+        let name = format!("items<{}> len={} nt={} cs={}", tname, v.len(), nt, cs);
+        chk(out, "C01", &name, "collect_vec", || vals(&items.clone().into_par().num_threads(nt).chunk_size(cs).collect_vec()), vals(&items))?;
+        chk(out, "C01", &name, "map collect_vec", || vals(&items.clone().into_par().num_threads(nt).chunk_size(cs).map(|x| T::mk(x.val() / 2)).collect_vec()), v.iter().map(|x| T::mk(x / 2).val()).collect())?;
+        chk(out, "C01", &name, "filter collect_vec", || vals(&items.clone().into_par().num_threads(nt).chunk_size(cs).filter(keep).collect_vec()), vals(&items.iter().cloned().filter(keep).collect::<Vec<_>>()))?;
+        if !T::ZST {
+        chk(out, "C01", &name, "filter collect (SplitVec)", || { let w = items.clone().into_par().num_threads(nt).chunk_size(cs).filter(keep).collect(); (0..orx_split_vec::PinnedVec::len(&w)).map(|i| orx_split_vec::PinnedVec::get(&w, i).expect("in bounds").val()).collect::<Vec<u64>>() }, vals(&items.iter().cloned().filter(keep).collect::<Vec<_>>()))?;
+        }
+        chk(out, "C01", &name, "flat_map collect_vec", || vals(&items.clone().into_par().num_threads(nt).chunk_size(cs).flat_map(dup).collect_vec()), vals(&items.iter().cloned().flat_map(dup).collect::<Vec<_>>()))?;
+        chk(out, "C01", &name, "filter collect_into(Vec with capacity)", || { let mut t: Vec<T> = Vec::with_capacity(7); t.push(T::mk(5)); vals(&items.clone().into_par().num_threads(nt).chunk_size(cs).filter(keep).collect_into(t)) }, { let mut e = vec![T::mk(5).val()]; e.extend(vals(&items.iter().cloned().filter(keep).collect::<Vec<_>>())); e })?;
+        if !T::ZST {
+        chk(out, "C07", &name, "filter collect_x", || { let w = items.clone().into_par().num_threads(nt).chunk_size(cs).filter(keep).collect_x(); let mut o: Vec<u64> = (0..orx_split_vec::PinnedVec::len(&w)).map(|i| orx_split_vec::PinnedVec::get(&w, i).expect("in bounds").val()).collect(); o.sort_unstable(); o }, { let mut o = vals(&items.iter().cloned().filter(keep).collect::<Vec<_>>()); o.sort_unstable(); o })?;
+        }
+        chk(out, "C04", &name, "filter count", || items.clone().into_par().num_threads(nt).chunk_size(cs).filter(keep).count(), items.iter().filter(|x| keep(x)).count())?;
+        chk(out, "C03", &name, "reduce max-by-val", || items.clone().into_par().num_threads(nt).chunk_size(cs).reduce(|a, b| if a.val() >= b.val() { a } else { b }).map(|x| x.val()), items.iter().map(|x| x.val()).max())?;
+        chk(out, "C03", &name, "min_by_key", || items.clone().into_par().num_threads(nt).chunk_size(cs).min_by_key(|x| x.val()).map(|x| x.val()), items.iter().map(|x| x.val()).min())?;
+        chk(out, "C02", &name, "find", || items.clone().into_par().num_threads(nt).chunk_size(cs).find(|x| x.val() % 7 == 3).map(|x| x.val()), items.iter().find(|x| x.val() % 7 == 3).map(|x| x.val()))?;
+        chk(out, "C02", &name, "flat_map first", || items.clone().into_par().num_threads(nt).chunk_size(cs).flat_map(dup).first().map(|x| x.val()), items.iter().cloned().flat_map(dup).next().map(|x| x.val()))?;
+        chk(out, "C02", &name, "par() of references: find", || items.par().num_threads(nt).chunk_size(cs).find(|x| x.val() % 5 == 2).map(|x| x.val()), items.iter().find(|x| x.val() % 5 == 2).map(|x| x.val()))?;
+    }
+    Ok(())
+}
+
+/// collect_into targets of every kind, REUSED over several computations: known-length map-only,
+/// unknown-length map-only, filtering, flat_map over an unknown-length source — the contents
+/// after every step must be the previous contents followed by the std result of that step
+macro_rules! target_battery {
+    ($out:expr, $name:expr, $mk:expr, $to_vec:expr, $n1:expr, $n2:expr, $nt:expr) => {{
+        let (n1, n2, nt): (usize, usize, usize) = ($n1, $n2, $nt);
+        let name = format!("target {} first={} second={} nt={}", $name, n1, n2, nt);
+        let a: Vec<u64> = (0..n1 as u64).map(|i| i * 7 % 1009).collect();
+        let b: Vec<u64> = (0..(2 * n2) as u64).map(|i| i * 13 % 997).collect();
+        let mut exp: Vec<u64> = vec![];
+        let t = $mk;
+        exp.extend(a.iter().map(|x| x + 1));
+        let t = a.par().num_threads(nt).map(|x| *x + 1).collect_into(t);
+        chk($out, "C06", &name, "step 1: map-only, known length", || $to_vec(&t), exp.clone())?;
+        exp.extend(b.iter().copied().filter(|x| x % 2 == 0).map(|x| x ^ 3));
+        let t = b.clone().into_iter().filter(|x| x % 2 == 0).par().num_threads(nt).map(|x| x ^ 3).collect_into(t);
+        chk($out, "C06", &name, "step 2: map-only, unknown length, reused target", || $to_vec(&t), exp.clone())?;
+        exp.extend(a.iter().copied().filter(|x| x % 3 == 1));
+        let t = a.par().num_threads(nt).copied().filter(|x| x % 3 == 1).collect_into(t);
+        chk($out, "C06", &name, "step 3: filter, known length, reused target", || $to_vec(&t), exp.clone())?;
+        exp.extend(b.iter().copied().filter(|x| x % 5 == 0).flat_map(|x| vec![x; (x % 3) as usize]));
+        let t = b.clone().into_iter().filter(|x| x % 5 == 0).par().num_threads(nt).flat_map(|x| vec![x; (x % 3) as usize]).collect_into(t);
+        chk($out, "C06", &name, "step 4: flat_map, unknown length, reused target", || $to_vec(&t), exp.clone())?;
+        exp.extend(b.iter().copied().filter(|x| x % 2 == 1).map(|x| x + 9));
+        let t = b.clone().into_iter().filter(|x| x % 2 == 1).par().num_threads(nt).chunk_size(3).map(|x| x + 9).collect_into(t);
+        chk($out, "C06", &name, "step 5: map-only, unknown length, again", || $to_vec(&t), exp.clone())?;
+    }};
 }
 
 pub fn run(out: &mut dyn Write, seed: u64, only: &str) -> std::io::Result<()> {
@@ -152,6 +294,75 @@ pub fn run(out: &mut dyn Write, seed: u64, only: &str) -> std::io::Result<()> {
             battery!(out, format!("ConIterOfIter(unknown).into_par() {}", tag), { let it = v.clone().into_iter().filter(|x| x % 13 != 0).into_con_iter(); for _ in 0..k { it.next(); } it.into_par() }, v.iter().copied().filter(|x| x % 13 != 0).skip(k).collect(), known);
             battery!(out, format!("ConIterOfRange.into_par().map {}", tag), { let it = (5..5 + len).con_iter(); for _ in 0..k { it.next(); } it.into_par().map(|x| x as u64) }, (5 + k as u64..5 + len as u64).collect(), known);
             battery!(out, format!("Cloned(ConIterOfSlice).into_par() {}", tag), { let it = v.as_slice().into_con_iter().cloned(); for _ in 0..k { it.next(); } it.into_par() }, rest.clone(), known);
+            // `*_with_index` report positions in the ORIGINAL source: k + position among the rest
+            const KI: &str = "C02 sequential-with-index:partially-consumed-concurrent-iterator";
+            for (nt, cs) in [(0usize, 0usize), (1, 0), (2, 1), (4, 3)] {
+                let name = format!("ConIter with_index {} nt={} cs={}", tag, nt, cs);
+                let rel = rest.iter().position(|x| x % 4 == 1);
+                let want = rel.map(|i| (k + i, rest[i]));
+                let alt = if k > 0 && nt == 1 { rel.map(|i| (KI, Some((i, rest[i])))) } else { None };
+                chk_alt(out, "C02", &name, "ConIterOfSlice find_with_index", || { let it = v.as_slice().into_con_iter(); for _ in 0..k { it.next(); } it.into_par().num_threads(nt).chunk_size(cs).find_with_index(|x| **x % 4 == 1).map(|(i, x)| (i, *x)) }, want, alt)?;
+                let alt = if k > 0 && nt == 1 { rel.map(|i| (KI, Some((i, rest[i])))) } else { None };
+                chk_alt(out, "C02", &name, "ConIterOfVec find_with_index", || { let it = v.clone().into_con_iter(); for _ in 0..k { it.next(); } it.into_par().num_threads(nt).chunk_size(cs).find_with_index(|x| *x % 4 == 1) }, want, alt)?;
+                let alt = if k > 0 && nt == 1 { rel.map(|i| (KI, Some((i, rest[i] + 3)))) } else { None };
+                chk_alt(out, "C02", &name, "ConIterOfIter map find_with_index", || { let it = v.clone().into_iter().into_con_iter(); for _ in 0..k { it.next(); } it.into_par().num_threads(nt).chunk_size(cs).map(|x| x + 3).find_with_index(|x| (*x - 3) % 4 == 1) }, want.map(|(i, x)| (i, x + 3)), alt)?;
+                let relf = rest.iter().position(|x| x % 3 != 0);
+                let wantf = relf.map(|i| (k + i, rest[i]));
+                let alt = if k > 0 && nt == 1 { relf.map(|i| (KI, Some((i, rest[i])))) } else { None };
+                chk_alt(out, "C02", &name, "ConIterOfVec filter first_with_index", || { let it = v.clone().into_con_iter(); for _ in 0..k { it.next(); } it.into_par().num_threads(nt).chunk_size(cs).filter(|x| x % 3 != 0).first_with_index() }, wantf, alt)?;
+                let alt = if k > 0 && nt == 1 { relf.map(|i| (KI, Some((i, rest[i] * 2)))) } else { None };
+                chk_alt(out, "C02", &name, "ConIterOfRange map filter first_with_index", || { let it = (0..len).con_iter(); for _ in 0..k { it.next(); } let vv = v.clone(); it.into_par().num_threads(nt).chunk_size(cs).map(move |i| vv[i] * 2).filter(|x| (x / 2) % 3 != 0).first_with_index() }, wantf.map(|(i, x)| (i, x * 2)), alt)?;
+            }
+        }
+    }
+    for &len in &[0usize, 1, 2, 17, 64, 65, 300] {
+        let v: Vec<u64> = (0..len).map(|_| rnd() % 1000).collect();
+        item_battery::<()>(out, "()", &v)?;
+        item_battery::<String>(out, "String", &v)?;
+        item_battery::<[u64; 24]>(out, "[u64;24]", &v)?;
+        item_battery::<Box<u64>>(out, "Box<u64>", &v)?;
+        item_battery::<(u8, Vec<u64>)>(out, "(u8,Vec<u64>)", &v)?;
+    }
+    if only.is_empty() || only == "C06" {
+        use orx_fixed_vec::FixedVec;
+        use orx_split_vec::SplitVec;
+        let sv = |v: &dyn Fn(usize) -> Option<u64>, n: usize| -> Vec<u64> { (0..n).map(|i| v(i).expect("in bounds")).collect() };
+        for (n1, n2) in [(0usize, 5usize), (10, 40), (300, 1000), (8200, 600)] {
+            for nt in [1usize, 3] {
+                target_battery!(out, "Vec::new", Vec::<u64>::new(), |t: &Vec<u64>| t.clone(), n1, n2, nt);
+                target_battery!(out, "Vec::with_capacity(partial)", Vec::<u64>::with_capacity(n1 + n2 / 3), |t: &Vec<u64>| t.clone(), n1, n2, nt);
+                target_battery!(out, "Vec::with_capacity(ample)", Vec::<u64>::with_capacity(6 * (n1 + n2) + 64), |t: &Vec<u64>| t.clone(), n1, n2, nt);
+                target_battery!(out, "FixedVec", FixedVec::<u64>::new(6 * (n1 + n2) + 64), |t: &FixedVec<u64>| sv(&|i| orx_split_vec::PinnedVec::get(t, i).copied(), orx_split_vec::PinnedVec::len(t)), n1, n2, nt);
+                target_battery!(out, "SplitVec::new (doubling)", SplitVec::<u64>::new(), |t: &SplitVec<u64>| sv(&|i| orx_split_vec::PinnedVec::get(t, i).copied(), orx_split_vec::PinnedVec::len(t)), n1, n2, nt);
+                // constant-size fragments: linear(k) has 2^k elements per fragment (the pinned code
+                // reserves room for 2^32 elements when the length is unknown, i.e. 2^(32-k) fragments:
+                // small k costs seconds and gigabytes, so only k = 8 and 10 are exercised)
+                target_battery!(out, "SplitVec linear(10)", SplitVec::<u64, orx_split_vec::Linear>::with_linear_growth(10), |t: &SplitVec<u64, orx_split_vec::Linear>| sv(&|i| orx_split_vec::PinnedVec::get(t, i).copied(), orx_split_vec::PinnedVec::len(t)), n1, n2, nt);
+                if n1 == 8200 || n1 == 10 {
+                    target_battery!(out, "SplitVec linear(8)", SplitVec::<u64, orx_split_vec::Linear>::with_linear_growth(8), |t: &SplitVec<u64, orx_split_vec::Linear>| sv(&|i| orx_split_vec::PinnedVec::get(t, i).copied(), orx_split_vec::PinnedVec::len(t)), n1, n2, nt);
+                }
+            }
+        }
+    }
+    // scale: inputs and chunk sizes around the largest constant of the settings code
+    // (INITIAL_CHUNK_SIZE = 2^20), plain closures (nothing is recorded)
+    {
+        let big = 1usize << 20;
+        for &len in &[big + 1, 3 * big + 7, 6 * big + 12345] {
+            let v: Vec<u64> = (0..len as u64).map(|i| i.wrapping_mul(2654435761) % 1_000_003).collect();
+            for (nt, cs) in [(2usize, ChunkSize::Exact(std::num::NonZeroUsize::new(big + 1).expect("nz"))), (3, ChunkSize::Min(std::num::NonZeroUsize::new(big + 3).expect("nz"))), (4, ChunkSize::Exact(std::num::NonZeroUsize::new(2 * big).expect("nz"))), (0, ChunkSize::Auto)] {
+                let name = format!("scale len={} nt={} cs={:?}", len, nt, cs);
+                chk(out, "C04", &name, "count", || v.par().num_threads(nt).chunk_size(cs).count(), len)?;
+                chk(out, "C04", &name, "filter count", || v.par().num_threads(nt).chunk_size(cs).filter(|x| **x % 3 == 0).count(), v.iter().filter(|x| **x % 3 == 0).count())?;
+                chk(out, "C04", &name, "for_each", || { let n = std::sync::atomic::AtomicU64::new(0); v.par().num_threads(nt).chunk_size(cs).for_each(|x| { n.fetch_add(*x, std::sync::atomic::Ordering::Relaxed); }); n.into_inner() }, v.iter().sum::<u64>())?;
+                chk(out, "C03", &name, "sum", || v.par().num_threads(nt).chunk_size(cs).copied().sum(), v.iter().sum::<u64>())?;
+                chk(out, "C03", &name, "filter_map max", || v.par().num_threads(nt).chunk_size(cs).filter_map(|x| if x % 5 == 0 { None } else { Some(x + 1) }).max(), v.iter().filter(|x| **x % 5 != 0).map(|x| x + 1).max())?;
+                chk(out, "C02", &name, "find (only the last element matches)", || v.par().num_threads(nt).chunk_size(cs).copied().map(|x| x + 1).find(|x| *x == 2_000_000), None)?;
+                chk(out, "C02", &name, "position of the first multiple of 999983", || v.par().num_threads(nt).chunk_size(cs).copied().find(|x| *x != 0 && x % 999_983 == 0), v.iter().copied().find(|x| *x != 0 && x % 999_983 == 0))?;
+                chk(out, "C01", &name, "filter collect_vec (length, checksum)", || { let r = v.par().num_threads(nt).chunk_size(cs).copied().filter(|x| x % 7 == 1).collect_vec(); (r.len(), r.iter().enumerate().fold(0u64, |a, (i, x)| a.wrapping_add((i as u64 + 1).wrapping_mul(*x)))) }, { let r: Vec<u64> = v.iter().copied().filter(|x| x % 7 == 1).collect(); (r.len(), r.iter().enumerate().fold(0u64, |a, (i, x)| a.wrapping_add((i as u64 + 1).wrapping_mul(*x)))) })?;
+                chk(out, "C01", &name, "map collect_vec (length, checksum)", || { let r = v.par().num_threads(nt).chunk_size(cs).map(|x| *x ^ 5).collect_vec(); (r.len(), r.iter().enumerate().fold(0u64, |a, (i, x)| a.wrapping_add((i as u64 + 1).wrapping_mul(*x)))) }, { let r: Vec<u64> = v.iter().map(|x| *x ^ 5).collect(); (r.len(), r.iter().enumerate().fold(0u64, |a, (i, x)| a.wrapping_add((i as u64 + 1).wrapping_mul(*x)))) })?;
+                chk(out, "C07", &name, "flat_map collect_x (length, sum)", || { let r = v.par().num_threads(nt).chunk_size(cs).flat_map(|x| if x % 4 == 0 { vec![*x, 1] } else { vec![] }).collect_x(); (orx_split_vec::PinnedVec::len(&r), (0..orx_split_vec::PinnedVec::len(&r)).map(|i| *orx_split_vec::PinnedVec::get(&r, i).expect("in bounds")).sum::<u64>()) }, { let r: Vec<u64> = v.iter().flat_map(|x| if x % 4 == 0 { vec![*x, 1] } else { vec![] }).collect(); (r.len(), r.iter().sum::<u64>()) })?;
+            }
         }
     }
     let arr: [u64; 9] = [5, 3, 8, 8, 1, 0, 13, 21, 4];
